@@ -217,6 +217,13 @@ func rootObj(info *types.Info, e ast.Expr) types.Object {
 			e = x.X
 		case *ast.IndexExpr:
 			e = x.X
+		case *ast.SelectorExpr:
+			if _, isPkg := info.ObjectOf(rootIdent(x.X)).(*types.PkgName); isPkg {
+				return info.ObjectOf(x.Sel)
+			}
+			e = x.X
+		case *ast.StarExpr:
+			e = x.X
 		case *ast.Ident:
 			return info.ObjectOf(x)
 		default:
@@ -366,4 +373,17 @@ func sexprTokens(src string) []string {
 		}
 	}
 	return toks
+}
+
+func rootIdent(e ast.Expr) *ast.Ident {
+	for {
+		switch x := e.(type) {
+		case *ast.ParenExpr:
+			e = x.X
+		case *ast.Ident:
+			return x
+		default:
+			return &ast.Ident{Name: "_"}
+		}
+	}
 }
